@@ -128,7 +128,10 @@ impl Members {
         };
 
         if effectively_down {
-            self.by_addr.remove(&actor.addr());
+            // the address may meanwhile belong to another member
+            if self.by_addr.get(&actor.addr()) == Some(&actor.id()) {
+                self.by_addr.remove(&actor.addr());
+            }
             self.states.remove(&actor.id());
         }
 
